@@ -24,6 +24,23 @@ const (
 	nScanOps
 )
 
+// ops >= opUnreadK stand for UnreadMany(op - opUnreadK), any count from 0 upwards (the random histories only)
+const opUnreadK = 100
+
+func scanOpName(op int) string {
+	if op >= opUnreadK {
+		return fmt.Sprintf("UnreadMany(%d)", op-opUnreadK)
+	}
+	return scanOpNames[op]
+}
+
+func unreadCount(op int) int {
+	if op >= opUnreadK {
+		return op - opUnreadK
+	}
+	return op - opUnread + 1
+}
+
 var scanOpNames = []string{"Read", "Unread", "UnreadMany(2)", "UnreadMany(3)", "Reset", "Peek", "PeekLine", "PeekColumn"}
 
 type c11Case struct {
@@ -100,7 +117,15 @@ func checkC11(c c11Case) (fail *evid.Fail) {
 			return nil
 		}
 		for i, op := range c.Ops {
-			name := scanOpNames[op]
+			name := scanOpName(op)
+			if op >= opUnreadK {
+				k := unreadCount(op)
+				s.UnreadMany(k)
+				for ; k > 0 && p >= 0; k-- {
+					p--
+				}
+				op = -1 // handled; fall through to the common checks below
+			}
 			switch op {
 			case opRead:
 				got := s.Read()
@@ -195,7 +220,7 @@ func checkC11(c c11Case) (fail *evid.Fail) {
 func opsString(ops []int) string {
 	parts := make([]string, len(ops))
 	for i, o := range ops {
-		parts[i] = scanOpNames[o]
+		parts[i] = scanOpName(o)
 	}
 	return "[" + strings.Join(parts, " ") + "]"
 }
@@ -209,6 +234,12 @@ func c11Classify(c c11Case) (bool, []string) {
 	nt := false
 	labels := map[string]bool{}
 	for _, op := range c.Ops {
+		if op >= opUnreadK {
+			if unreadCount(op) > 16 {
+				labels["unread-many>16"] = true
+			}
+			op = opUnread3
+		}
 		switch op {
 		case opRead:
 			if p < n {
@@ -305,9 +336,13 @@ func TestC11_Exhaustive(t *testing.T) {
 }
 
 func opsKey(ops []int) []byte {
-	b := make([]byte, len(ops))
-	for i, o := range ops {
-		b[i] = byte('0' + o)
+	b := make([]byte, 0, len(ops))
+	for _, o := range ops {
+		if o >= opUnreadK {
+			b = append(b, 'U', byte((o-opUnreadK)>>8), byte(o-opUnreadK))
+			continue
+		}
+		b = append(b, byte('0'+o))
 	}
 	return b
 }
@@ -369,6 +404,12 @@ func TestC11_Rapid(t *testing.T) {
 			sb.WriteString(string(content))
 		}
 		ops := rapid.SliceOfN(rapid.SampledFrom([]int{opRead, opRead, opRead, opRead, opUnread, opUnread, opUnread2, opUnread3, opReset, opPeek, opPeekLine, opPeekColumn}), 0, 60).Draw(rt, "ops")
+		// multi-unreads of any count: none, one, a few, dozens, more than was read
+		for i := range ops {
+			if (ops[i] == opUnread2 || ops[i] == opUnread3) && rapid.Bool().Draw(rt, "anycount") {
+				ops[i] = opUnreadK + rapid.SampledFrom([]int{0, 1, 2, 4, 5, 8, 15, 16, 17, 18, 20, 31, 32, 33, 40, 64, 65, 100, 300, 3000}).Draw(rt, "count")
+			}
+		}
 		if n > 40 {
 			// walk deep into long contents first, then work there
 			walk := make([]int, rapid.IntRange(n/2, n+2).Draw(rt, "walk"))
